@@ -1229,7 +1229,13 @@ def run_tms(ctx, t, acc, n_sets):
                     writers.write("sinex_tms", dset=dset, station=station, file_path=out, **o)
             except Exception as e:
                 n_sta = sum(1 for r in rows if r[0] == station)
-                if n_sta == 1 and "obs.dsite_pos" in dset.fields and isinstance(e, ValueError) and "requires 3 columns" in str(e):
+                tab_ = tms_module().ESTIMATE_PARAMETER_FIELD_TYPES
+                if (isinstance(e, (TypeError, KeyError)) and "vel" in dset.meta and "VEL_Z_SIG" not in tab_
+                        and "z" in dset.meta["vel"].get("trend_sigma", {})):
+                    acc.known.append(("c17_tms_vel_sigma_key", "sinex_tms writer: ESTIMATE_PARAMETER_FIELD_TYPES lists the key VEL_Y_SIG twice "
+                                      "(VEL_Z_SIG is missing): VEL_Y is written with the standard deviation of the z trend and VEL_Z with 0",
+                                      dict(rep0, error=f"{type(e).__name__}: {e}", vel={a_: str(b_) for a_, b_ in dset.meta["vel"].items()})))
+                elif n_sta == 1 and "obs.dsite_pos" in dset.fields and isinstance(e, ValueError) and "requires 3 columns" in str(e):
                     acc.known.append(("c17_tms_single_epoch", "sinex_tms writer raises ValueError for a station with exactly one epoch when ENU columns are present "
                                       "(TimeseriesBlocks._get_ref_pos builds a Position from one row)", dict(rep0, error=str(e))))
                 else:
@@ -1349,6 +1355,21 @@ def run_tms(ctx, t, acc, n_sets):
                 expect_const(sq[1][1], "SOLUTION/ESTIMATE")
                 index = 1
                 units = {n_: f_.unit for n_, f_ in tms_module().ESTIMATE_PARAMETER_FIELD_TYPES.items()}
+
+                def sigma_finding(type_, written_sigma, period):
+                    """property oracle, independent of the writer's table: the standard deviation of <KIND>_<C> is
+                    meta[vel][<kind>_sigma][<c>] (0 when absent); a different number in the file is the known key defect"""
+                    ks = tms_module().ESTIMATE_PARAMETER_FIELD_TYPES[type_].keys
+                    try:
+                        want = dset.meta[ks[0]][ks[1] + "_sigma"][ks[2]]
+                        want = want[period] if period is not None else want
+                    except (KeyError, TypeError):
+                        want = 0.0
+                    if not (want == written_sigma):
+                        acc.known.append(("c17_tms_vel_sigma_key", "sinex_tms writer: ESTIMATE_PARAMETER_FIELD_TYPES lists the key VEL_Y_SIG twice "
+                                          "(VEL_Z_SIG is missing): VEL_Y is written with the standard deviation of the z trend and VEL_Z with 0",
+                                          dict(rep0, type=type_, period=str(period), sigma_in_meta=want, sigma_by_writer_table=written_sigma)))
+                    return written_sigma
                 for type_, entries in est.items():
                     if type_.endswith("_SIG"):
                         continue
@@ -1359,12 +1380,14 @@ def run_tms(ctx, t, acc, n_sets):
                             else:
                                 tf, tt = yyyydddsssss(datetime.fromisoformat(period)), "0000:000:00000"
                             sg = est[type_ + "_SIG"][period] if type_ + "_SIG" in est else 0.0
+                            sg = sigma_finding(type_, sg, period)
                             row("tms_est", [v_i(index), v_s(type_), v_s(station.upper()), v_i(i_sol + 1), v_s(tf), v_s(tt), v_s(units[type_]),
                                             v_f(value), v_f(sg)], None, info=dict(type=type_, period=str(period), value=value, sigma=sg))
                             index += 1
                     else:
                         iv = dset.meta["vel"]["interval"][0]
                         sg = est[type_ + "_SIG"] if type_ + "_SIG" in est else 0.0
+                        sg = sigma_finding(type_, sg, None)
                         row("tms_est1", [v_i(index), v_s(type_), v_s(station.upper()), v_s(yyyydddsssss(iv[0])), v_s(yyyydddsssss(iv[1])),
                                          v_s(units[type_]), v_f(entries), v_f(sg)], None, info=dict(type=type_, value=entries, sigma=sg))
                         index += 1
